@@ -850,6 +850,15 @@ def fam_recurse(rnd, i):
                 a = rnd.choice(cands)
                 b = a[:-1] + (rnd.choice(["x", "dir", "su", "sub3", "dir11"]) + str(cnt[0]),)
                 cnt[0] += 1
+                if rnd.random() < 0.3:
+                    # moved to ANOTHER directory of the same tree (a sibling, a deeper one, an ancestor), not just renamed in place
+                    others = [d for d in dirs if d[:len(a)] != a and d != a[:-1] and len(d) < 4 and d[0] == a[0]]
+                    if others:
+                        np = rnd.choice(others)
+                        b = np + (rnd.choice(["mv", "sub", "dir1"]) + str(cnt[0]),)
+                        steps += [fs("rename", a, to=b), drain(w), fs("create", b + ("in",)), drain(w)]
+                        dirs = [b + d[len(a):] if d[:len(a)] == a else d for d in dirs]
+                        continue
                 if rnd.random() < 0.12:
                     # moved away and back, and a new directory made under the intermediate name, before any of it is handled:
                     # the pending "moved to b" must not be taken for the new b (found by the bounded model MC_Recurse)
